@@ -362,7 +362,12 @@ theorem drawObject_closed {T : Tables} (wf : T.WF) {dc : Option Str} {o : Obj} {
   simp only [bind, Except.bind] at h
   cases hg : getStyle T.styles dc (styleType o.kind ++ '.' :: o.cls) with
   | error e => rw [hg] at h; cases h
-  | ok defaults => rw [hg] at h; exact assemble_closed wf h
+  | ok defaults =>
+    rw [hg] at h
+    simp only at h
+    split at h
+    · cases h
+    · exact assemble_closed wf h
 
 theorem assemble_group {fixed : Bool} {T : Tables} {o : Obj} {p : Prep} {d : Drawn}
     (h : assemble fixed T o p = .ok d) :
@@ -400,7 +405,12 @@ theorem drawObject_group {fixed : Bool} {T : Tables} {dc : Option Str} {o : Obj}
   simp only [bind, Except.bind] at h
   cases hg : getStyle T.styles dc (styleType o.kind ++ '.' :: o.cls) with
   | error e => rw [hg] at h; cases h
-  | ok defaults => rw [hg] at h; exact assemble_group h
+  | ok defaults =>
+    rw [hg] at h
+    simp only at h
+    split at h
+    · cases h
+    · exact assemble_group h
 
 /-! ### the whole document -/
 
